@@ -9,6 +9,7 @@ const T: &str = "t";
 // the first one holds 17 distinct words with equal counts: which of them make the top-keyword cut must not depend on hash order
 const CONTENTS: [&str; 4] = ["apple banana cherry damson elder figs grape hazel ivory jasmine kiwis lemon mango nectar olive peach quince", "alpha beta\nTODO: gamma", "beta alpha delta", "ERROR: alpha\n- [ ] beta"];
 fn fresh(mode: u8) -> ContinuityStore {
+    CP_WINDOW.with(|c| c.set(if mode == 2 { 1 } else { usize::MAX }));
     reset_scans(); CTR.with(|c| *c.borrow_mut() = 0); BLOBS.with(|b| b.borrow_mut().clear()); SIDECAR.with(|s| s.borrow_mut().clear()); FAULT_WRITE_AT.with(|f| *f.borrow_mut() = None);
     let st = ContinuityStore { workspace_root: PathBuf::from("/ws"), event_log: EventLog { frames: RefCell::new(Vec::new()) }, stream_cache: ContinuityStreamCache { mode, window: None }, sender: Sender, next_seq: Mutex::new(HashMap::new()) };
     let created = Event { id: "c0".into(), session_id: T.into(), timestamp_ms: 0, seq: 0, kind: EventKind::ContinuityCreated { workspace: "ws".into(), title: None } };
@@ -59,7 +60,7 @@ fn expected_cut_points(frames: &[Event], stride: u64, limit: u64) -> Expect {
 
 fn fail(what: &str, clause: &str, ops: &[u8], mode: u8, stride: u64, extra: String) -> ! {
     println!("WITNESS {{\"function\": {:?}, \"clause\": {:?}, \"history\": {:?}, \"cache_mode\": {:?}, \"stride_messages\": {}, \"detail\": {:?}}}",
-        what, clause, describe(ops), if mode == 0 { "caches absent (truth paths)" } else { "caches present" }, stride, extra);
+        what, clause, describe(ops), if mode == 0 { "caches absent (truth paths)" } else if mode == 1 { "caches present" } else { "caches present, checkpoint back-scan limited to a window of the newest frame" }, stride, extra);
     std::process::exit(0)
 }
 
@@ -69,7 +70,7 @@ fn main() {
     for n in 0..=max_len { for code in 0..6usize.pow(n as u32) {
         let mut c = code; let ops: Vec<u8> = (0..n).map(|_| { let o = (c % 6) as u8; c /= 6; o }).collect();
         if ops.iter().filter(|o| **o != 0).count() > 3 { continue; }   // at most three non-message frames per history
-        for mode in 0..=1u8 { for stride in [0u64, 1, 2, 3, 7] {
+        for mode in 0..=2u8 { for stride in [0u64, 1, 2, 3, 7] {
             let st = fresh(mode);
             if let Err(e) = build(&st, &ops) { if e.starts_with("VIOLATION") { fail("ContinuityStore::compaction_checkpoint_cumulative_v1", "manual_checkpoint_only_at_message_boundaries", &ops, mode, stride, e); } continue; }
             let frames0 = st.replay_events(T).unwrap();
